@@ -23,11 +23,15 @@ RULE = ('regex ASTs: every tree of size <= 4 (quick; <= 5 thorough) over the lea
         'of length <= 3 and 350 seeded samples of length 4 (thorough: every string <= 5) over the characters a b | * ( ) '
         'plus a fixed list exercising + ? . [..] \\ ; '
         'distinct non-trivial = distinct (regex, word) pairs with the regex not Eps/NULL and compile() succeeding')
-EXPLANATION = ('Unbounded Coq theorems about the hand model: nullability, Brzozowski derivative (through the smart '
-               'constructors), derivative classes (sound, covering SIGMA, pairwise disjoint), DFA construction and '
-               'table-driven run; parser refutation (original) and parser/grammar round trip (repaired parser). '
-               'The correspondence ties the model to the current source on every run; IntegerSet contains/'
-               'intersection/difference are modelled extensionally (their algorithms are property C33).')
+EXPLANATION = ('Unbounded Coq theorems about the hand model: nullable() <-> empty word in L; derivative = left quotient, '
+               'through every smart-constructor simplification (concatenate/logical_or/logical_and preserve L); derivative '
+               'classes are sound (same class => same derivative object), cover 0..255 and are pairwise disjoint; '
+               'compile()+table run is PARTIALLY correct (c31_dfa_correct_partial: whenever the run returns it returns '
+               'membership in L(r); totality of pick_transition over 0..255 and termination of compile are not proved - '
+               'compile really diverges on e.g. a*a*); the parser as found is refuted (c31_parser_matches_grammar_refuted) '
+               'and the grammar-prescribed AST is proved to denote the grammar language (c31_grammar_build_meaning). '
+               'NOT proved, validated by correspondence/oracles only: repaired parser = build_alt of the syntax tree, '
+               'scan()/maximal munch, IntegerSet algorithms (modelled extensionally; property C33).')
 TRUSTED = ['hand model coq/Model/Regex.v (cross-checked against the implementation on every run: AST-level nu/derivative/'
            'classes/compile tables/run, smart constructors, IntegerSet operations, parser, scan)',
            'CPython: sorted()/list.sort() on int tuples = lexicographic insertion sort; bisect.bisect on a sorted list = '
@@ -313,7 +317,7 @@ def oracle_syntax(ctx, im, thorough):
             except Exception as e2:   # noqa: BLE001
                 got = 'exception %s' % type(e2).__name__
             if got != exp:
-                ctx.violation({'fn': 'regex.parse', 'args': [t], 'word': w, 'expected': exp, 'actual': got,
+                ctx.violation({'fn': 'regex.parse+compile+run', 'args': [t], 'word': w, 'expected': exp, 'actual': got,
                                'parsed_as': str(expr), 'key': 'parse',
                                'how_to_replay': "PYTHONPATH=%s python -c \"from ppci.lang.tools.regex import parse; print(parse(%r))\"  "
                                                 "# then compile() and run the tables on %r; re.fullmatch says %s" % (vlib.REPO, t, w, exp)})
@@ -541,14 +545,17 @@ def run(ctx):
 
 
 MANIFEST = {
-    'text': 'proof: unbounded Coq theorems over the hand model of ppci/lang/tools/regex: nullable(r) <-> [] in L(r); '
-            'L(derivative(r,c)) = c^-1 L(r) including all smart-constructor simplifications; derivative classes are sound, '
-            'cover 0..255 and are pairwise disjoint; compile() (worklist DFA construction) followed by the table-driven '
-            'run accepts exactly L(r); the parser as found is refuted ("ab|cd" parsed as a(b|c)d) and repaired by '
-            'fixes/C31-regex-parser-precedence.diff',
+    'text': 'proof (core) + validated-only (parser, scanner): unbounded Coq theorems over the hand model of ppci/lang/tools/regex: '
+            'nullable(r) <-> [] in L(r); L(derivative(r,c)) = c^-1 L(r) including all smart-constructor simplifications; derivative '
+            'classes are sound, cover 0..255 and are pairwise disjoint; compile() (worklist DFA construction) followed by the '
+            'table-driven run returns membership in L(r) whenever it returns (partial correctness; totality and termination not '
+            'proved). The parser as found is refuted in Coq ("ab|cd" parsed as a(b|c)d) and repaired by '
+            'fixes/C31-regex-parser-precedence.diff; the repaired parser and scan() are validated-only: exhaustive '
+            'model/implementation correspondence on short strings plus re.fullmatch and brute-force oracles',
     'note': 'trusted: Coq kernel; hand model (tie H) cross-checked on every run against the real code on all ASTs of size <= 4/5 '
-            'x all words <= 4/5 over {a,b} and all short concrete-syntax strings; IntegerSet algorithms are modelled extensionally '
-            '(property C33 covers them). Known findings: compile() KeyError when the NULL state is unreachable (".*"); '
-            'scan() diverges on nullable regexes. scan/maximal munch is modelled and cross-checked only.',
+            'x all words <= 4/5 over {a,b} (nu, derivative, classes, full DFA tables, run) and short concrete-syntax strings; '
+            'IntegerSet contains/intersection/difference modelled extensionally (property C33 covers the algorithms). Known findings: '
+            'compile() KeyError when the NULL state is unreachable (".*"); compile() diverges when derivatives are not finite '
+            'modulo the implemented simplifications ("a*a*"); scan() diverges on nullable regexes.',
     'technique': 'Coq proof over hand model (Brzozowski derivatives) + exhaustive small-domain correspondence + two independent oracles',
 }
